@@ -99,7 +99,10 @@ type World struct {
 	// realBtcWatcher, when set, replaces the simulated Bitcoin watcher by the REAL txwatcher over a scripted RPC
 	realBtcWatcher  swap.TxWatcher
 	realLbtcWatcher swap.TxWatcher
-	dir             string
+	// rw, when set (cfg.RealWallets), puts the REAL wallet adapters and validators under the node: lnd.Client over
+	// fake gRPC clients for Bitcoin, onchain.LiquidOnChain over a fake wallet for Liquid
+	rw  *realWallets
+	dir string
 	db              *bbolt.DB
 	store           *logStore
 	rs              swap.RequestedSwapsStore
@@ -150,6 +153,9 @@ type WorldCfg struct {
 	ReceivableMsat  uint64
 	IdempotentRepay bool
 	PolicyContent   string
+	RealWallets     bool     // the real wallet adapters and validators instead of the simulated chain's
+	FundPlan        fundPlan // how the fake Bitcoin wallet funds opening transactions
+	LqPlan          []lqOutSpec
 }
 
 func defaultCfg() WorldCfg {
@@ -188,6 +194,9 @@ func newWorld(cfg WorldCfg) *World {
 		}
 		w.pol.real = rp
 		w.policyPath = path
+	}
+	if cfg.RealWallets {
+		w.rw = newRealWallets(cfg)
 	}
 	w.openDB()
 	w.boot(cfg.BtcEnabled, cfg.LbtcEnabled)
@@ -234,8 +243,14 @@ func (w *World) boot(btc, lbtc bool) {
 	if w.realLbtcWatcher != nil {
 		lbtcWatcher = w.realLbtcWatcher
 	}
+	var btcWallet, lbtcWallet swap.Wallet = w.btc, w.lbtc
+	var btcVal, lbtcVal swap.Validator = w.btc, w.lbtc
+	if w.rw != nil {
+		btcWallet, btcVal = w.rw.lnd.client, w.rw.lnd.chain
+		lbtcWallet, lbtcVal = w.rw.lq, w.rw.lq
+	}
 	services := swap.NewSwapServices(w.store, w.rs, w.ln, w.msgr, w.mgr, w.pol,
-		btc, w.btc, w.btc, btcWatcher, lbtc, w.lbtc, w.lbtc, lbtcWatcher, w.ps)
+		btc, btcWallet, btcVal, btcWatcher, lbtc, lbtcWallet, lbtcVal, lbtcWatcher, w.ps)
 	w.svc = swap.NewSwapService(services)
 	t, err := w.svc.VerifStart()
 	if err != nil {
